@@ -1,5 +1,6 @@
 //@serves C04 C05 C09 C10 C11 C14 C15 C01 C06 C07
 //@tier A
+//@no-global G2
 //@include prelude/head.rs
 verus! {
 //@include prelude/bytes.rs
